@@ -107,11 +107,35 @@ class Interp:
                 self.slet(kind, st, env, used)
             elif k == "semi":
                 self.expr(kind, st["e"], env, used)
+            elif k == "if":
+                # a guard clause: `if <cond> { return Err(..) }` (no value, else optional)
+                c = st["cond"]
+                if c.get("k") == "let":
+                    val = self.expr(kind, c["init"], env, used)
+                    ok = self.bind_pat(kind, c["pat"], val, env, used)
+                else:
+                    v = self.expr(kind, c, env, used)
+                    if v[0] != "bool":
+                        raise Undecided("if condition is not a recognised boolean")
+                    ok = v[1]
+                br = st["then"] if ok else st.get("else")
+                if br is not None:
+                    self.block(kind, br, env, used) if br.get("k") == "block" and br.get("expr") is not None else self._stmts_only(kind, br, env, used)
             else:
                 raise Undecided("from_str of %s: statement kind %s" % (kind, k))
         if b.get("expr") is None:
             raise Undecided("from_str of %s: block without tail expression" % kind)
         return self.expr(kind, b["expr"], env, used)
+
+    def _stmts_only(self, kind, b, env, used):
+        """a block evaluated for its effects (early return): no tail expression required"""
+        if b.get("k") != "block":
+            self.expr(kind, b, env, used)
+            return
+        b2 = dict(b)
+        if b2.get("expr") is None:
+            b2["expr"] = {"k": "lit", "v": None}
+        self.block(kind, b2, env, used)
 
     def bind_pat(self, kind, pat, val, env, used):
         """bind pattern against a value; returns False if a literal pattern does not match"""
@@ -175,6 +199,11 @@ class Interp:
             raise Undecided("path %s" % (r,))
         if k == "lit":
             return ("litval", e.get("v"))
+        if k == "un" and e.get("op") in ("!", "Not", "not"):
+            v = self.expr(kind, e.get("e") or e.get("a"), env, used)
+            if v[0] != "bool":
+                raise Undecided("negation of a non-boolean")
+            return ("bool", not v[1])
         if k == "ret":
             raise _Return(self.expr(kind, e["e"], env, used))
         if k == "call":
